@@ -1,0 +1,9 @@
+//go:build verif
+
+package misc
+
+// Exported aliases of the length-generic mnemonic codec for the verification
+// monitors (build tag "verif").
+
+func VerifBinToMnemonic(input []uint8) string    { return binToMnemonic(input) }
+func VerifMnemonicToBin(mnemonic string) []uint8 { return mnemonicToBin(mnemonic) }
